@@ -72,9 +72,11 @@ def host_key(rng, kind=None):
     elif kind == 'ecdsa':
         curve, size = rng.choice([('nistp256', 32), ('nistp384', 48), ('nistp521', 66)])
         name = 'ecdsa-sha2-' + curve
-        # at least one coordinate keeps a non-zero top byte (the library re-derives the width from the larger one)
-        x_bytes = bytes([rng.randrange(0, 256 if curve != 'nistp521' else 2)]) + rbytes(rng, size - 1)
-        y_bytes = bytes([rng.randrange(1, 256 if curve != 'nistp521' else 2)]) + rbytes(rng, size - 1)
+        # coordinates with zero bytes at either end: the point is a fixed-width octet string (SEC 1 2.3.3)
+        x_bytes = bytes([rng.choice([0, 0, rng.randrange(256)]) if curve != 'nistp521' else rng.randrange(2)]) + rbytes(rng, size - 1)
+        y_bytes = bytes([rng.choice([0, 0, rng.randrange(256)]) if curve != 'nistp521' else rng.randrange(2)]) + rbytes(rng, size - 1)
+        if rng.random() < 0.1:
+            y_bytes = y_bytes[:-1] + b'\x00'
         point = b'\x04' + x_bytes + y_bytes
         identifier = next(m for m in alg.SshEllipticCurveIdentifier if m.value.code == curve)
         public = ckey.PublicKey.from_params(ckey.PublicKeyParamsEcdsa.from_octet_bit_string(identifier.value.named_group, point))
